@@ -75,7 +75,8 @@ def programs(seed, n):
             newer = gen.evolve(rng, files)
             fix = [{"cmd": "repair_index", "read_all": rng.random() < 0.3}] if rng.random() < 0.5 else \
                 [{"cmd": "prune", "opts": gen.prune_opts(rng, kd, allow_instant=False, allow_early=False)}]
-            progs[-1]["after"] = [{"cmd": "backup", "files": newer if rng.random() < 0.6 else files}] + fix + [{"cmd": "backup", "files": gen.evolve(rng, newer)}]
+            progs[-1]["after"] = [{"cmd": "backup", "files": newer if rng.random() < 0.6 else files}] + fix + [{"cmd": "backup", "files": gen.evolve(rng, newer)}] + \
+                ([{"cmd": "tick", "dt": kd + 7}, {"cmd": "prune", "opts": gen.prune_opts(rng, kd, allow_instant=False, allow_early=False)}] if rng.random() < 0.5 else [])
     # directed: the command under test runs on what an interrupted prune left behind - its new index files next to the old ones,
     # so packs are listed normally and with a delete mark at once - after a further backup started to use those packs again
     for k in range(max(12, n // 8)):
